@@ -287,6 +287,10 @@ impl Collector {
         );
         dir.push_str(".bin");
         path.push(&dir);
+        #[cfg(feature = "verif-hooks")]
+        crate::verif::point("path.map", || {
+            format!("rrdp-archive\t{}\t{}", rpki_notify, path.display())
+        });
         Ok(path)
     }
 
